@@ -149,7 +149,7 @@ pub fn check_run(cx: &Cx, run: &RoleRun, am: &crate::cmp::AttrMap, entry: &(Stri
                     continue;
                 }
                 let with_helpers = !matches!(kind, RoleKind::Plain);
-                match sc.segment(Scope::Variant, &seg, use_type, with_helpers, None) {
+                match sc.segment_of(Scope::Variant, v, &seg, use_type, with_helpers, None) {
                     Ok((u, n)) => {
                         // every trait derivable on enums must honour the variant level: when resolution reaches it,
                         // the presence of the variant's own derive_ex entry must have been consulted
@@ -208,7 +208,7 @@ pub fn check_run(cx: &Cx, run: &RoleRun, am: &crate::cmp::AttrMap, entry: &(Stri
             if std::env::var("GENLINT_DEBUG_BOUNDS").is_ok() { eprintln!("BOUNDS {:?} f={f} visited={visited} used={used} parent_use={parent_use:?} seg={seg:?} cond={}", kind, cond_str(&p.cond).chars().take(500).collect::<String>()); }
             let explicit_only: Vec<(String, bool)> = seg.iter().filter(|x| !x.1).cloned().collect();
             let with_helpers = !matches!(kind, RoleKind::Plain);
-            match sc.segment(Scope::Field, &explicit_only, parent_use, with_helpers, stop_after.as_deref()) {
+            match sc.segment_of(Scope::Field, f, &explicit_only, parent_use, with_helpers, stop_after.as_deref()) {
                 Err(e) => fail("ES-bounds-trace", format!("{:?}:field", kind), e),
                 Ok((u, _)) => {
                     JUDGED.with(|c| c.set(c.get() + 1));
